@@ -430,14 +430,14 @@ func init() {
 			}
 			return Str{S: "<" + p.argStr(args[0]) + ">"}, true
 		},
-		"fmt.Sprint":   func(p *Path, fn *ssa.Function, args []Value) (Value, bool) { return Str{S: "<sprint>"}, true },
-		"fmt.Sprintln": func(p *Path, fn *ssa.Function, args []Value) (Value, bool) { return Str{S: "<sprintln>"}, true },
-		"fmt.Fprintf":  stubZero,
-		"fmt.Fprintln": stubZero,
-		"fmt.Fprint":   stubZero,
-		"fmt.Printf":   stubZero,
-		"fmt.Println":  stubZero,
-		"fmt.Print":    stubZero,
+		"fmt.Sprint":              func(p *Path, fn *ssa.Function, args []Value) (Value, bool) { return Str{S: "<sprint>"}, true },
+		"fmt.Sprintln":            func(p *Path, fn *ssa.Function, args []Value) (Value, bool) { return Str{S: "<sprintln>"}, true },
+		"fmt.Fprintf":             stubZero,
+		"fmt.Fprintln":            stubZero,
+		"fmt.Fprint":              stubZero,
+		"fmt.Printf":              stubZero,
+		"fmt.Println":             stubZero,
+		"fmt.Print":               stubZero,
 		"(*sync.Mutex).Lock":      stubZero,
 		"(*sync.Mutex).Unlock":    stubZero,
 		"(*sync.RWMutex).Lock":    stubZero,
